@@ -126,7 +126,15 @@ impl<'c> Slice<'c> {
         let substitution_matrix = compression_header.preservation_map().substitution_matrix();
 
         for record in &mut records {
-            if !record.bam_flags.is_unmapped() && !record.cram_flags.sequence_is_missing() {
+            // A record without a reference sequence or an alignment start is not aligned to a
+            // reference sequence: all of its bases are in its features.
+            let is_placed =
+                record.reference_sequence_id.is_some() && record.alignment_start.is_some();
+
+            if is_placed
+                && !record.bam_flags.is_unmapped()
+                && !record.cram_flags.sequence_is_missing()
+            {
                 record.reference_sequence = if reference_sequence_context.is_many() {
                     get_record_reference_sequence(&reference_sequence_repository, header, record)?
                 } else {
